@@ -1,10 +1,10 @@
-"""Runs all rules of one property: the property-specific rules (vf/props/cNN.py) and the hygiene bundle (Z1-Z6)
+"""Runs all rules of one property: the property-specific rules (vf/props/cNN.py) and the hygiene bundle (Z1-Z10)
 over the modules the property is anchored in (properties.jsonl: anchors.files)."""
 import importlib
 import json
 import os
 
-from . import hygiene, model
+from . import hygiene, hygiene2, model
 
 HERE = os.path.dirname(os.path.dirname(os.path.abspath(__file__)))
 _ANCHORS = None
@@ -28,3 +28,4 @@ def run_checks(prop, prog, run):
     if not files:
         raise model.AnalysisError("%s: no anchored files in properties.jsonl" % prop)
     hygiene.run_bundle(prog, run, files)
+    hygiene2.run_bundle(prog, run, files)
